@@ -12,7 +12,7 @@ package webrtc
 // mid / kind of a remote media section are functions of that section.
 //@ func getMidValue
 //@ trusted
-//@ props C07
+//@ props C07 C09
 //@ ensures result == ufstr("midOf", media)
 //@ modifies nothing
 //@ func getPeerDirection
